@@ -175,12 +175,19 @@ class Module(object):
         except SyntaxError as e:
             raise AnalysisError('parse:' + relpath, str(e))
         # locals are identified by role, not by name (sa/alpha.py)
-        from . import alpha, inline
-        known = alpha.table().get(relpath, {}).get('__functions__')
+        from . import alpha, inline, tablenorm
+        rec = alpha.table().get(relpath, {})
+        known = rec.get('__functions__')
         self.inlined_helpers = 0
         if not os.environ.get('VERIF_NO_ALPHA'):
             self.inlined_helpers = inline.inline_new_helpers(tree, known)
+            # table-driven rewrites are spelled out again (sa/tablenorm.py)
+            tablenorm.inline_new_consts(tree, rec.get('__consts__'))
+            tablenorm.kw_to_positional(
+                tree, alpha.table().get('__signatures__'))
         self.renamed_locals = alpha.normalise(tree, relpath)
+        if not os.environ.get('VERIF_NO_ALPHA'):
+            tablenorm.unroll(tree, relpath)
         if not os.environ.get('VERIF_NO_NNF'):
             from . import nnf
             nnf.normalise(tree)
